@@ -86,4 +86,44 @@ theorem KF_integer_fraction_coerces :
 example : [Json.str "a", Json.num 1].any (enumEq .json false .iface (jsonToIface (.num 1))) = true := by decide +kernel
 example : [Json.str "a", Json.num 1].any (enumEq .json false .iface (jsonToIface (.str "b"))) = false := by decide +kernel
 
+
+/-- **the emitted method of a string enum accepts a JSON string iff it is one of the listed values** (any wire, any
+    list, any fuel ≥ 2; a non-wrapped enum over the `string` carrier) -/
+theorem string_enum_method_exact (w : Wire) (env : Env) (d : Decl) (vals : List Json) (ic : Bool) (cs : List (String × String))
+    (ms : Bool) (s : String) (f : Nat)
+    (hbody : d.body = .enum vals false ic cs ms) (hty : d.ty = .string) :
+    (∃ v, runMethod w env (f + 2) d (.str s) = .ok v) ↔ vals.any (fun v => v == Json.str s) = true := by
+  have hdec : decode w env (f + 1) .string (.str s) = .ok (.str s) := by cases w <;> simp [decode]
+  simp only [runMethod, hbody, hty, enumCarrierOf, hdec, string_enum_membership]
+  cases vals.any (fun v => v == Json.str s) <;> simp
+
+/-- … and returns the string itself -/
+theorem string_enum_method_value (w : Wire) (env : Env) (d : Decl) (vals : List Json) (ic : Bool) (cs : List (String × String))
+    (ms : Bool) (s : String) (f : Nat) (v : GoVal)
+    (hbody : d.body = .enum vals false ic cs ms) (hty : d.ty = .string)
+    (h : runMethod w env (f + 2) d (.str s) = .ok v) : v = .str s := by
+  have hdec : decode w env (f + 1) .string (.str s) = .ok (.str s) := by cases w <;> simp [decode]
+  simp only [runMethod, hbody, hty, enumCarrierOf, hdec] at h
+  split at h
+  · injection h with h; simpa using h.symm
+  · cases h
+
+/-- a value of another JSON type never gets as far as the table (JSON wire) -/
+theorem string_enum_method_rejects_other_types (env : Env) (d : Decl) (vals : List Json) (ic : Bool) (cs : List (String × String))
+    (ms : Bool) (j : Json) (f : Nat)
+    (hbody : d.body = .enum vals false ic cs ms) (hty : d.ty = .string)
+    (hj : ∀ s, j ≠ .str s) (hn : j ≠ .null) :
+    ∃ e, runMethod .json env (f + 2) d j = .error e := by
+  have hdec : ∃ e, decode .json env (f + 1) .string j = .error e := by
+    cases j with
+    | str s => exact absurd rfl (hj s)
+    | null => exact absurd rfl hn
+    | bool b => exact ⟨.type, by simp [decode]⟩
+    | num q => exact ⟨.type, by simp [decode]⟩
+    | arr xs => exact ⟨.type, by simp [decode]⟩
+    | obj kvs => exact ⟨.type, by simp [decode]⟩
+  obtain ⟨e, he⟩ := hdec
+  exact ⟨e, by simp only [runMethod, hbody, hty, enumCarrierOf, he]⟩
+
+
 end GJS.Props.C08
